@@ -108,6 +108,16 @@ func (fsm *FSM) applyRobustMessage(msg *robust.Message, i *ircserver.IRCServer, 
 		}
 
 	case robust.IRCFromClient:
+		// The POST handler only compares the client message id with the
+		// state of the node which answers the request. That state can lag
+		// behind the log (e.g. while the log is replayed after a restart,
+		// or on a freshly elected leader), in which case a retried message
+		// is proposed a second time. Every node skips the second copy when
+		// applying it, so that a retry is never processed twice.
+		if msg.ClientMessageId != 0 && i.LastPostMessage(msg.Session) == msg.ClientMessageId {
+			log.Printf("Skipped retry of client message id %d (msgid %d).\n", msg.ClientMessageId, msg.Id.Id)
+			return nil
+		}
 		// Need to do this first, because ircserver.ProcessMessage could delete
 		// the session, e.g. by using KILL or QUIT.
 		if err := i.UpdateLastClientMessageID(msg); err != nil {
